@@ -52,6 +52,7 @@ func runFormulas(rng *rand.Rand, n int, out *Out, _ []string) {
 	Quiet()
 	for i := 0; i < n; i++ {
 		formulaWeights(rng, out)
+		formulaShares(rng, out)
 		formulaPillarOne(rng, out)
 		formulaPillarEpoch(rng, out)
 		formulaStakeEpoch(rng, out)
@@ -80,6 +81,25 @@ func genTime(rng *rand.Rand, base int64) int64 {
 	default:
 		return base + rng.Int63n(7200) - 1800
 	}
+}
+
+// the property's statement on the emission functions themselves: the per-contract amounts of an epoch
+// (pillars: per-momentum amounts times MomentumsPerEpoch) add up to at most the epoch's emission
+func formulaShares(rng *rand.Rand, out *Out) {
+	e := genEpoch(rng)
+	d, b := constants.PillarRewardPerMomentum(e)
+	sz, sq := constants.SentinelRewardForEpoch(e)
+	lz, lq := constants.LiquidityRewardForEpoch(e)
+	st := constants.StakeQsrRewardPerEpoch(e)
+	znn := new(big.Int).Add(d, b)
+	znn.Mul(znn, big.NewInt(constants.MomentumsPerEpoch))
+	znn.Add(znn, sz).Add(znn, lz)
+	qsr := new(big.Int).Add(st, sq)
+	qsr.Add(qsr, lq)
+	nonneg := d.Sign() >= 0 && b.Sign() >= 0 && sz.Sign() >= 0 && sq.Sign() >= 0 && lz.Sign() >= 0 && lq.Sign() >= 0 && st.Sign() >= 0
+	out.Oracle(nonneg && znn.Cmp(big.NewInt(constants.NetworkZnnRewardPerEpoch(e))) <= 0 && qsr.Cmp(big.NewInt(constants.NetworkQsrRewardPerEpoch(e))) <= 0,
+		"epoch-shares-within-epoch-emission", M{"epoch": U64(e), "znn_shares": Big(znn), "qsr_shares": Big(qsr),
+			"znn_emission": I64(constants.NetworkZnnRewardPerEpoch(e)), "qsr_emission": I64(constants.NetworkQsrRewardPerEpoch(e))})
 }
 
 func formulaWeights(rng *rand.Rand, out *Out) {
